@@ -611,6 +611,18 @@ func (e *Enc) evalCall(env *Env, n CCall, cur, old *State) Val {
 		v := e.eval(env, n.Args[0], old, old)
 		env.inOld = saved
 		return v
+	case "before":
+		// before(e): e evaluated in the entry heap, but with the current ghost logs - for "the field
+		// of the object a logged call returned, as it was when the function was entered"
+		if len(n.Args) != 1 {
+			e.evalFail(env, "before takes one argument")
+		}
+		saved := env.inOld
+		env.inOld = true
+		mixed := e.Mix(old, cur)
+		v := e.eval(env, n.Args[0], mixed, old)
+		env.inOld = saved
+		return v
 	case "len":
 		v := arg(0)
 		return Val{T: e.lenOf(v, cur), Typ: tInt}
@@ -642,7 +654,10 @@ func (e *Enc) evalCall(env *Env, n CCall, cur, old *State) Val {
 	case "substr":
 		return Val{T: "(str.substr " + arg(0).T + " " + arg(1).T + " " + arg(2).T + ")", Typ: tString}
 	case "replaceAll":
-		return Val{T: "(str.replace_all " + arg(0).T + " " + arg(1).T + " " + arg(2).T + ")", Typ: tString}
+		// uninterpreted: SMT string solvers are incomplete for replace_all in the contexts that occur
+		// here; equalities between identically built terms are all that is needed
+		f := e.sc.DeclFun("strReplaceAll", []string{"String", "String", "String"}, "String")
+		return Val{T: app(f, arg(0).T, arg(1).T, arg(2).T), Typ: tString}
 	case "fv", "fvinit":
 		// fv(f, closureFn, name): the captured cell of free variable `name` of closure value f
 		// fvinit(f, closureFn, name): its value when the closure was created (effectively final only)
